@@ -481,7 +481,7 @@ def rule_ctor(ctx):
             ctx.undecided("C20.CTOR", ci.short, "no successful construction path explored", ci=ci)
         elif not bad:
             ctx.holds("C20.CTOR", ci.short, f"all {len(names)} named arguments reach the rendering on {okpaths} construction path(s)", ci=ci)
-    ctx.floor("C20.CTOR", "argument x path evaluations", n, 150)
+    ctx.floor("C20.CTOR", "argument x path evaluations", n, 100)
 
 
 RULES = [
